@@ -178,7 +178,9 @@ def gen_configs(ctx):
         c.update(kw)
         return c
     if ctx.quick:
-        return [(base(2), "medium", 2, False),
+        # start position given as jft.Samples (without samples/keys) in the main configuration, as a
+        # plain position in the checkpoint one
+        return [(base(2, start_form="samples"), "medium", 2, False),
                 # resume="<existing checkpoint outside odir>" (state after 1 iteration), every run passes it again
                 (base(2, resume0="ext", ext_from=1), "light", 1, False)]
     # (configuration, enumeration level, number of random crash chains, also first runs with resume=True)
@@ -191,6 +193,8 @@ def gen_configs(ctx):
         (base(2, n_samples=0, jit=False), "light", 0, True),          # MAP run, no jit
         (base(3, resume0="ext", ext_from=1), "medium", 3, False),     # resume="<existing checkpoint>"
         (base(2, resume0="missing"), "light", 2, False),              # resume="<path that does not exist>"
+        (base(2, start_form="samples_keys", sample_modes=["linear_sample", "nonlinear_update"]), "light", 1, False),
+        (base(3, start_form="samples", resume0="ext", ext_from=1), "kill", 1, False),
     ]
 
 
